@@ -135,11 +135,11 @@ func hiddenTerm(t *tm.Term, hp hidePos) *tm.Term {
 }
 
 func runC07(c *core.Ctx, r *core.Result) {
-	p := plan{fullDepth: 3, coreDepth: 4, alphabet: tm.REGE}
+	p := plan{fullDepth: 3, coreDepth: 4, alphabet: tm.REGE, aliasSides: true}
 	if c.Thorough() {
-		p = plan{fullDepth: 4, coreDepth: 5, alphabet: tm.REGE}
+		p = plan{fullDepth: 4, coreDepth: 5, alphabet: tm.REGE, aliasSides: true}
 	}
-	r.Bounds = p.String() + "; every hidden position of every term (barrier cause, secondary error, error-valued format argument, mark reference); local and after hop_K and hop_K^2"
+	r.Bounds = p.String() + "; every hidden position of every term (barrier cause, secondary error, error-valued format argument, mark reference); local and after hop_K (thorough: also hop_K^2)"
 	r.Rule = "state = (term, hidden position, stage); non-trivial = the hidden sub-tree carries at least one annotation, sentinel or As-able type that a leaking accessor would pick up (its own structural vector differs from that of a plain leaf)"
 	r.Assumptions = []string{"structural observers = Unwrap/Cause/UnwrapAll, Is over sentinels ∪ nodes of the hidden tree, As over 8 target types, HasType/HasInterface/If, every Get*/Has*/Is* accessor (tm.Annotations)"}
 	sent := tm.Sentinels()
@@ -209,7 +209,9 @@ func runC07(c *core.Ctx, r *core.Result) {
 					stages := []stage{
 						{"local", func(e error) error { return e }},
 						{"K", func(e error) error { d, _ := tm.HopK(e); return d }},
-						{"KK", func(e error) error { d, _ := tm.HopK(e); d, _ = tm.HopK(d); return d }},
+					}
+					if c.Thorough() {
+						stages = append(stages, stage{"KK", func(e error) error { d, _ := tm.HopK(e); d, _ = tm.HopK(d); return d }})
 					}
 					for _, st := range stages {
 						a, b := st.get(e), st.get(e0)
